@@ -16,7 +16,7 @@ import hashlib
 import os
 import sys
 
-REPO = "/repo"
+REPO = os.path.abspath(os.environ.get("VERIF_REPO", "/repo"))
 VERIF = os.path.dirname(os.path.dirname(os.path.abspath(__file__)))
 GEN = os.path.join(VERIF, "lean", "VerdeModel", "Gen", "Kernels.lean")
 SNAP = os.path.join(VERIF, "lean", "VerdeModel", "GenSnapshot", "Kernels.lean.txt")
